@@ -147,7 +147,8 @@ func ruleExecOnce(p *Prog, r *Result) {
 					}
 					ok := false
 					for _, st := range sets {
-						if instrDominates(c, st) && instrDominates(st, ret) {
+						// the flag is set on the way to this return, after or (under the same guard) before the write
+						if instrDominates(st, ret) && (instrDominates(c, st) || st.Block() == c.Block() || sameGuard(st, c, tn, flag)) {
 							ok = true
 						}
 					}
@@ -844,4 +845,19 @@ func ruleLimitWrap(p *Prog, r *Result) {
 	r.floor("LimitPlan installations under DeletePlan", n, 1)
 	// the un-wrapped delete must not be returned when a limit exists: every return of a DeletePlan
 	// whose ChildPlan was never replaced must be dominated... covered by when-limit + single construction.
+}
+
+// sameGuard: the store happens under the same `flag == false` guard as the write call.
+func sameGuard(st *ssa.Store, c *ssa.Call, typ, flag string) bool {
+	guarded := func(b *ssa.BasicBlock) bool {
+		for _, a := range dominatingAtoms(b) {
+			if isFieldLoad(a.X, typ, flag) {
+				if bv, isB := constBool(a.Y); isB && ((a.Op == token.NEQ && bv) || (a.Op == token.EQL && !bv)) {
+					return true
+				}
+			}
+		}
+		return false
+	}
+	return guarded(st.Block()) && guarded(c.Block()) && st.Block().Dominates(c.Block())
 }
